@@ -1357,6 +1357,10 @@ func areEqualValTuple(query sqlparser.ValTuple, pattern sqlparser.ValTuple) bool
 	// It's allowed to use this pattern combined with %%VALUE%% only
 	// at last position in tuple
 	if len(query) > len(pattern) {
+		if len(pattern) == 0 {
+			// empty tuple in the pattern ("VALUES ()") has no last element that could be %%LIST_OF_VALUES%%
+			return false
+		}
 		patternValue, ok := pattern[len(pattern)-1].(*sqlparser.SQLVal)
 		if !ok {
 			return false
